@@ -1,2 +1,50 @@
-From CubedV Require Import Model.Util Model.Geometry Model.StoreRegion.
-Lemma placeholder_c11 : out_blocks [RA 8 4 4 8 4 4; RA 8 4 0 4 4 4] = [[1;0]]. Proof. reflexivity. Qed.
+(* C11: store/to_zarr fill every target completely, and only inside the requested region. *)
+
+From CubedV Require Import Model.Util Model.Geometry Model.StoreRegion Proofs.StoreProofs.
+
+
+Theorem C11_region_task_exact : forall a b, accepted_axis a -> In b (out_blocks_axis a) ->
+  rstart a <= fst (task_target a b) /\ snd (task_target a b) <= rstop a /\
+  fst (task_target a b) < snd (task_target a b) /\
+  fst (task_target a b) = rstart a + fst (task_source a b) /\
+  snd (task_target a b) = rstart a + snd (task_source a b) /\
+  b - block_offset a < nblocks (sn a) (sc a).
+Proof. exact (region_task_exact). Qed.
+Print Assumptions C11_region_task_exact.
+
+Theorem C11_region_covered_once : forall a x, accepted_axis a -> rstart a <= x < rstop a ->
+  exists b, In b (out_blocks_axis a) /\ fst (task_target a b) <= x < snd (task_target a b) /\
+    forall b', In b' (out_blocks_axis a) -> fst (task_target a b') <= x < snd (task_target a b') -> b' = b.
+Proof. exact (region_covered_once). Qed.
+Print Assumptions C11_region_covered_once.
+
+Theorem C11_region_block_count : forall a, accepted_axis a ->
+  length (out_blocks_axis a) = nblocks (sn a) (sc a) /\ NoDup (out_blocks_axis a).
+Proof. exact (region_block_count). Qed.
+Print Assumptions C11_region_block_count.
+
+Theorem C11_region_num_tasks_exact : forall axes, Forall accepted_axis axes ->
+  length (out_blocks axes) = region_num_tasks axes.
+Proof. exact (region_num_tasks_exact). Qed.
+Print Assumptions C11_region_num_tasks_exact.
+
+Theorem C11_region_rejects_unsafe : forall axes a, In a axes ->
+  (rstart a mod tc a <> 0 \/ (rstop a mod tc a <> 0 /\ rstop a <> tn a) \/ sn a <> rstop a - rstart a
+   \/ (sc a <> tc a /\ (1 < nblocks (sn a) (sc a) \/ tc a < sn a))) ->
+  region_accepts axes = RejectValue.
+Proof. exact (region_rejects_unsafe). Qed.
+Print Assumptions C11_region_rejects_unsafe.
+
+Theorem C11_store_task_chunks_aligned : forall scs tcs nbs i,
+  length scs = length tcs -> length nbs = length tcs -> i < length tcs ->
+  0 < nth i tcs 0 ->
+  (nth i (store_task_chunks scs tcs nbs) 0) mod (nth i tcs 0) = 0 \/ nth i nbs 0 <= 1.
+Proof. exact (store_task_chunks_aligned). Qed.
+Print Assumptions C11_store_task_chunks_aligned.
+
+Example C11_accepts : region_accepts [RA 8 4 4 8 4 4; RA 8 4 0 4 4 4] = Accept /\ out_blocks [RA 8 4 4 8 4 4; RA 8 4 0 4 4 4] = [[1;0]].
+Proof. split; reflexivity. Qed.
+Example C11_rejects_misaligned : region_accepts [RA 8 4 2 6 4 4] = RejectValue.
+Proof. reflexivity. Qed.
+Example C11_rejects_chunk_mismatch : region_accepts [RA 8 4 4 8 4 2] = RejectValue.
+Proof. reflexivity. Qed.
